@@ -3949,13 +3949,14 @@ public:
     }
 
 #ifdef SBEPP_DOXYGEN
-    //! @brief Available only if #SBEPP_HAS_THREE_WAY_COMPARISON == 1
-    constexpr friend std::strong_ordering operator<=>(
+    //! @brief Available only if #SBEPP_HAS_THREE_WAY_COMPARISON == 1. Returns
+    //!  `std::partial_ordering` for floating-point types
+    constexpr friend std::compare_three_way_result_t<value_type> operator<=>(
         const optional_base& lhs, const optional_base& rhs) noexcept;
 #endif
 
 #if SBEPP_HAS_THREE_WAY_COMPARISON
-    constexpr friend std::strong_ordering
+    constexpr friend std::compare_three_way_result_t<value_type>
         operator<=>(const optional_base& lhs, const optional_base& rhs) noexcept
     {
         if(lhs && rhs)
